@@ -1,5 +1,6 @@
 import Zog.Props.FactsOK
 import Zog.Order
+import Zog.OrderAll
 
 /-!
 # C09 — results do not depend on map iteration or key insertion order
@@ -67,6 +68,20 @@ theorem success_order_independent (fmt : String → String → List (String × S
   have := (C09_partial_spec fmt ω₁ ω₂ m s hp hw tag v d).2.1
   rw [h] at this
   exact List.Perm.eq_nil this.symm
+
+/-- **On success nothing depends on the visit order — EVERY well-formed schema, PostTransforms
+    included.** If the execution under one field-visit oracle reports no issue, then under every
+    other oracle it reports none either, the destination is the same and the same callbacks ran
+    (as a multiset). PostTransform gating (D19) can only bite on executions that fail somewhere. -/
+theorem success_order_independent_all (fmt : String → String → List (String × String) → String) (ω₁ ω₂ : String → List String)
+    (m : Mode) (s : Schema) (hw : s.WF) (tag : Option String) (v : Val) (d : DVal)
+    (h : (Engine.run ⟨fmt, ω₁⟩ Gen.facts m s tag v d).2.sink = []) :
+    (Engine.run ⟨fmt, ω₂⟩ Gen.facts m s tag v d).2.sink = [] ∧
+    (Engine.run ⟨fmt, ω₁⟩ Gen.facts m s tag v d).1 = (Engine.run ⟨fmt, ω₂⟩ Gen.facts m s tag v d).1 ∧
+    (Engine.run ⟨fmt, ω₁⟩ Gen.facts m s tag v d).2.log.Perm (Engine.run ⟨fmt, ω₂⟩ Gen.facts m s tag v d).2.log := by
+  rw [engine_is_spec] at h ⊢
+  rw [engine_is_spec]
+  exact proc_success_order_indep fmt ω₁ ω₂ m s hw tag [] v d h
 
 /-! ## the full statement is false: PostTransform gating (known finding D19)
 
